@@ -96,7 +96,7 @@ def run(ctx):
             for k, ch in u.done_ctx:
                 if k[0] == "unsafe":
                     by_kind.setdefault(k[1], set()).add((k[2], k[3], (fid,) + ch))
-            if not is_entry(fn):
+            if not is_entry(fn) or (fn.kind == "Closure" and fid in an.spliced):
                 continue
             n_entries += 1
             for o in u.open.values():
